@@ -288,7 +288,8 @@ class Statement(object):
 
         if self.operand.value.is_address_expression():
             self.code_pkg.additional = fit_value(
-                self.operand.value.calculate_address_offset(statements), self.operand.address_digits()
+                self.operand.value.calculate_address_offset(statements), self.operand.address_digits(),
+                signed=not self.operand.is_direct()
             )
 
         if self.operand.value.is_address():
